@@ -136,6 +136,8 @@ type result struct {
 	alertAt  []int
 	qAlerts  int
 	returned map[string]bool
+	// insideAtClose: Close returned while the wrapped writer was still inside Write
+	insideAtClose bool
 	// qUncovered: at the quiescent observation, a returned message nothing accounts for
 	qUncovered string
 }
@@ -386,6 +388,7 @@ func runOnce(cfg Config, ch vsched.Chooser, keepTrace bool) *result {
 		dw.Close()
 		closed = true
 		r.closeReturned = true
+		r.insideAtClose = ww.inside > 0 && cfg.Writer != "goexit"
 		vsched.Record("close-returned", 0, 0, true)
 		if cfg.TwoClose {
 			vsched.Block("join-closer2", func() bool { return r.close2Returned })
@@ -557,6 +560,8 @@ func judge(cfg Config, r *result) verdict {
 			return v
 		case r.afterClose > 0:
 			v.msg = fmt.Sprintf("%d deliveries after Close returned", r.afterClose)
+		case r.insideAtClose:
+			v.msg = "Close returned while the wrapped writer was still inside Write: that message had not been delivered when Close returned"
 		case r.close2Returned && r.c2Delivered+r.c2Reported < r.c2Written:
 			v.msg = fmt.Sprintf("a second, concurrent Close returned with delivered %d + reported %d < written %d: messages still in the ring", r.c2Delivered, r.c2Reported, r.c2Written)
 		case len(r.delivered)+r.reported < r.written:
@@ -857,6 +862,12 @@ func dfsConfigs() []struct {
 		// Close arriving while the consumer is inside the wrapped writer and the ring is full again behind it
 		for _, poller := range []bool{false, true} {
 			out = append(out, cb{Config{P: 1, W: 3, Size: 2, Poller: poller, Writer: "yields", Early: true}, 2}, cb{Config{P: 1, W: 4, Size: 3, Poller: poller, Writer: "yields", Early: true}, 2})
+		}
+	}
+	if prop == "C11" {
+		// Close arriving while the consumer is inside the wrapped writer with the last message, the ring empty behind it
+		for _, poller := range []bool{false, true} {
+			out = append(out, cb{Config{P: 1, W: 1, Size: 1, Poller: poller, Writer: "yields", Early: true}, 2}, cb{Config{P: 1, W: 2, Size: 4, Poller: poller, Writer: "yields", Early: true}, 2})
 		}
 	}
 	if prop == "C12" {
